@@ -315,7 +315,7 @@ ADDED = {
     'C10': 'Exit codes are compared with 0 by == / != only (whole impls tree). The code that runs the action to check does not read the text of stdin itself (a program used as text source would run twice).',
     'C11': 'The expression that recognises ${NAME} references (regular-expression syntax tree) accepts every name env can set. No swallowed failures in the env / timeout / settings modules (a change meant for both sets is made to both). The act set reaches the process unchanged through AtcExecutionInputAdv.resolve (None stays None); an environment emptied by `env unset` is never treated like "inherit" (no truth test of an optional mapping); REC of the settings records (the getter of a kept parameter hands out the kept value).',
     'C12': 'What is given for -rel-cd is the result of reading the current directory on every path (also when the reading fails). A path built from a path-or-string symbol gets the default relativity of the argument being parsed at every construction; the transitive part of a reference restriction examines every reference of every definition (fold with two checks per element, going on after a passing element).',
-    'C13': 'The limits of union / intersection are a decision table over which limits the operands have (unlimited, lower, upper, finite; symbolic numbers): unlimited as soon as one / only when both operands are, otherwise min / max of exactly the two limits. Optional numbers are never tested by truth value (0 is a limit).',
+    'C13': 'A line number counted from the end is translated to <number of lines> + n + 1, and to 0 (no line) when that reaches before the first line (constant and affine form of the clamp). The limits of union / intersection are a decision table over which limits the operands have (unlimited, lower, upper, finite; symbolic numbers): unlimited as soon as one / only when both operands are, otherwise min / max of exactly the two limits. Optional numbers are never tested by truth value (0 is a limit).',
     'C14': 'The attribute caching the text as a file is assigned None or the result of the call that writes the whole file. What as_lines hands out is a one-shot iterator, never a list; no one-shot iterator is handed to a constructor that keeps and traverses it; no open() passes newline=, encoding= or errors=; the two outcomes of freezing through the spooled buffer (kept in memory / moved to disk) must treat line ends alike - they do not (KNOWN FINDING D20).',
     'C15': 'Depth limits of 0 are limits (no truth test of an optional number); makers that create through package helpers are followed; the recursive listing schedules a directory independently of what the walk has seen; in `matches` (non-full) a listed file that does not satisfy its matcher decides the verdict on every path.',
     'C16': 'Every glob match is examined by the path resolver (none filtered away first). JUnit <error> / <failure> elements are recognised by role (construction of the XML element, helpers interpreted); every raising file-system query on a path from a suite file is inside a handler for OSError that raises the suite error (found defect D19, fixed); wildcards are matched by pathlib (names beginning with a dot are matched).',
